@@ -42,7 +42,11 @@ class FaultySimulation(DummySimulation):
             raise Injected(where)
 
     def createObjectInSimulator(self, obj):
-        self._maybe("create")
+        if self.fault and self.fault[0] == "create" and len(self.objects) - 1 == self.fault[1] % 2:
+            # a simulator interface that has already written properties of the object when it fails
+            obj.foo = 555
+            obj.position = Vector(obj.position.x, 7, 0)
+            raise Injected("create")
         return super().createObjectInSimulator(obj)
 
     def executeActions(self, allActions):
